@@ -818,10 +818,15 @@ func (b *beacon) Reset() {
 func (b *beacon) PushManyFromMap(treasures map[string]treasure.Treasure) {
 	b.mu.Lock()
 	defer b.mu.Unlock()
-	maps.Copy(b.treasuresByKeys, treasures)
-	// add elements to the ordered treasure if there is any ordered treasures
-	if b.isOrdered {
-		for _, treasureObj := range treasures {
+	// a key that is already indexed (a concurrent builder or writer got there first) must not get
+	// a second entry in the ordered slice
+	for key, treasureObj := range treasures {
+		if _, exists := b.treasuresByKeys[key]; exists {
+			continue
+		}
+		b.treasuresByKeys[key] = treasureObj
+		// add elements to the ordered treasure if there is any ordered treasures
+		if b.isOrdered {
 			b.treasuresByOrder = append(b.treasuresByOrder, treasureObj)
 		}
 	}
